@@ -2,6 +2,9 @@
 #![allow(unused_imports, unused_variables, dead_code, unused_mut, non_snake_case, unused_parens, unused_labels)]
 use vstd::prelude::*;
 verus! {
+// loops are verified in the context of their function (facts about values bound before a loop need no restating in
+// its invariant: hoisting a sub-expression out of a loop must not break the proof)
+#[verifier::loop_isolation(false)]
 pub mod unit_progress {
     use vstd::prelude::*;
 
